@@ -276,6 +276,10 @@ class LiteralMarshaller(AbstractMarshaller[LiteralT], tp.Generic[LiteralT]):
             ValueError: If `val` is not a member of the bound `Literal` type.
         """
         # Emit the declared literal, not whatever compared equal to it (e.g., a subclass instance).
+        # A literal of the value's own class wins: `True == 1`, yet `Literal[True, 1]` declares both.
+        for literal in self.values:
+            if literal.__class__ is val.__class__ and literal == val:
+                return literal
         for literal in self.values:
             if literal == val:
                 return literal
